@@ -321,6 +321,9 @@ type Source struct {
 type Switch struct {
 	Yield int32
 	To    int8
+	// From: 0 = the task that made the call; k+1 = task k, a goroutine the library started during
+	// the call (it shares the call's source and counts its own yields)
+	From int8 `json:"From,omitempty"`
 }
 
 // NewSource returns a generating source.
